@@ -175,6 +175,7 @@ structure StepObs where
   cancels : List RequestId
   present : List RequestId                     -- sorted
   prices : List (StationId × ChargerId × Rat)  -- sorted by station, plug
+  pairs : List (VehicleId × RequestId) := []   -- what the built-in dispatcher pairs on this state (harness probe)
   deriving Repr, Inhabited
 
 def observe (w : World) : StepObs :=
